@@ -256,6 +256,11 @@ pub fn run(args: &[String]) {
                     ("constcast:5", "const int[128] n = 5;", "n"),
                     ("nonconst", "int[32] n = 5;", "n"),
                     ("nonconst", "uint n;", "n"),
+                    // a mutable variable whose literal initializer needs no cast (the literal's own type)
+                    ("nonconst", "int[128] n = 7;", "n"),
+                    ("nonconst", "int[128] n = 7; n = 9;", "n"),
+                    ("nonconst", "float[64] n = 2.0;", "n"),
+                    ("nonconst", "bool n = true;", "n"),
                 ] {
                     if let Some(l) = semw_case(kind, form, d, pre, is_const, scope) {
                         writeln!(w, "{l}").unwrap();
